@@ -102,7 +102,14 @@ def handle(mod: Any, pid: str, case: Any, tier: str, stats: Stats, stage: str) -
     """evaluate one case and book-keep"""
     from . import findings  # pylint: disable=import-outside-toplevel
 
+    t_case = time.time()
     out = mod.evaluate(case, tier)
+    dt = time.time() - t_case
+    if dt > 10.0:
+        slow = stats.extra.setdefault("slow_cases", [])
+        if len(slow) < 5:
+            slow.append({"seconds": round(dt, 1), "case": case.to_json() if hasattr(case, "to_json") else str(case)})
+        stats.extra["slow_case_count"] = stats.extra.get("slow_case_count", 0) + 1
     stats.evaluations += 1
     stats.stage_counts[stage] += 1
     stats.comparisons += getattr(out, "comparisons", 0)
@@ -132,6 +139,10 @@ def handle(mod: Any, pid: str, case: Any, tier: str, stats: Stats, stage: str) -
 def worker(pid: str, tier: str, seed: int, shard: int, nshards: int, outpath: str, soft_s: float) -> None:
     """one shard: corpus sweep + generated search"""
     env.setup()
+    import faulthandler  # pylint: disable=import-outside-toplevel
+    import signal  # pylint: disable=import-outside-toplevel
+
+    faulthandler.register(signal.SIGUSR1, all_threads=True)
     try:
         resource.setrlimit(resource.RLIMIT_AS, (6 * 1024**3, 6 * 1024**3))
     except (ValueError, OSError):
